@@ -638,11 +638,11 @@ def SoundPolicy (P : CachePolicy) : Prop :=
   ∀ k k', P.keyEq (P.keyStored k) k' = true → P.fn k = P.fn k' ∧ P.reads k = P.reads k'
 
 def peekOK (T : Table) (sig : Var → Bool) (reads : List Var) (p : Peek) : Bool :=
-  p.args.all (fun a => reads.contains a) &&
-  (sig p.var ||
-    match (T.unitOf p.var).writes.find? (applicable T sig p.var) with
-    | some w => w.fn == p.fn && w.args == p.args.map Arg.val
-    | none => false)
+  sig p.var ||
+    (p.args.all (fun a => reads.contains a || sig a) &&
+      match (T.unitOf p.var).writes.find? (applicable T sig p.var) with
+      | some w => w.fn == p.fn && w.args == p.args.map Arg.val
+      | none => false)
 
 def methodOK (T : Table) (sig : Var → Bool) (md : Method) : Bool :=
   md.forced.isEmpty && md.numpyOnly.isEmpty && md.peek.all (peekOK T sig md.reads)
@@ -743,7 +743,7 @@ theorem peek_sound {T : Table} {sig : Var → Bool} {s : Nat} (wf : WF T sig) {s
       cases hsv : sig p.var with
       | false => rfl
       | true => have := h.srcp _ hsv; simp [hv] at this
-    simp only [peekOK, Bool.and_eq_true, hs, Bool.false_or] at hok
+    simp only [peekOK, hs, Bool.false_or, Bool.and_eq_true] at hok
     cases hf : (T.unitOf p.var).writes.find? (applicable T sig p.var) with
     | none => simp [hf] at hok
     | some w =>
@@ -758,10 +758,12 @@ theorem peek_sound {T : Table} {sig : Var → Bool} {s : Nat} (wf : WF T sig) {s
       congr 1
       apply List.map_congr_left
       intro a ha
-      have hmem : a ∈ reads := by
+      have hp : (st a).isSome = true := by
         have := (List.all_eq_true.mp hok.1) a ha
-        simpa using this
-      have hp := hreads a hmem
+        simp only [Bool.or_eq_true, List.contains_iff_mem] at this
+        rcases this with hmem | hsa
+        · exact hreads a hmem
+        · exact h.srcp a hsa
       cases hav : st a with
       | none => simp [hav] at hp
       | some e =>
